@@ -273,25 +273,77 @@ def run(repo, rep, tier):
             raise AnalysisError('%s.to_wbem_uri vanished' % cls.name)
         r4.functions.add(f.fq)
         r4.sites += 1
+        SRC = ('self.host', 'self.namespace', 'self.classname')
+        # locals derived from the name-typed attributes (pieces obtained by
+        # partition / split / slicing / concatenation are still name text)
+        derived = {}
+        changed = True
+        while changed:
+            changed = False
+            for n in walk_no_nested(f.node):
+                if not isinstance(n, ast.Assign):
+                    continue
+                src = None
+                for x in ast.walk(n.value):
+                    if isinstance(x, ast.Attribute) and dotted(x) in SRC:
+                        src = dotted(x)
+                    elif isinstance(x, ast.Name) and x.id in derived:
+                        src = derived[x.id]
+                if src is None:
+                    continue
+                # a value that went through case() is folded, not raw
+                if isinstance(n.value, ast.Call) and \
+                        dotted(n.value.func) == 'case':
+                    continue
+                for t in n.targets:
+                    for y in (t.elts if isinstance(t, ast.Tuple) else [t]):
+                        if isinstance(y, ast.Name) and y.id not in derived \
+                                and y.id != 'ret':
+                            derived[y.id] = src
+                            changed = True
+
+        def raw_occurrences(a):
+            out = []
+
+            def rec(e, folded):
+                if isinstance(e, ast.Call) and dotted(e.func) == 'case':
+                    for x in e.args:
+                        rec(x, True)
+                    return
+                if isinstance(e, ast.Attribute) and dotted(e) in SRC:
+                    if not folded:
+                        out.append(dotted(e))
+                    return
+                if isinstance(e, ast.Name) and e.id in derived:
+                    if not folded:
+                        out.append('%s (a piece of %s)' % (e.id,
+                                                           derived[e.id]))
+                    return
+                for c in ast.iter_child_nodes(e):
+                    rec(c, folded)
+            rec(a, False)
+            return out
         for n in walk_no_nested(f.node):
             if isinstance(n, ast.Call) and dotted(n.func) == 'ret.append' \
                     and n.args:
                 a = n.args[0]
-                names = [x for x in ast.walk(a) if isinstance(x, ast.Attribute)
-                         and dotted(x) in ('self.host', 'self.namespace',
-                                           'self.classname')]
-                if not names:
+                mentions = [x for x in ast.walk(a)
+                            if (isinstance(x, ast.Attribute) and
+                                dotted(x) in SRC) or
+                            (isinstance(x, ast.Name) and x.id in derived)]
+                if not mentions:
                     continue
-                ok = isinstance(a, ast.Call) and dotted(a.func) == 'case' \
-                    and len(a.args) == 1 and a.args[0] is names[0]
+                raw = raw_occurrences(a)
+                ok = not raw
                 r4.ob(ok, '%s:%s' % (cls.name, norm(a)),
-                      {'class': cls.name, 'component': norm(names[0]),
-                       'appended_as': norm(a)})
+                      {'class': cls.name, 'appended_as': norm(a),
+                       'unfolded_parts': raw})
                 if not ok:
                     rep.finding(r4, f.qualname, norm(n), 'not-folded', OBJ,
                                 n.lineno, '%s reaches the URI without going '
                                 'through case(): canonical URIs of equal '
-                                'paths differ' % norm(names[0]))
+                                'paths differ (== ignores the case of the '
+                                'whole attribute)' % ', '.join(raw))
         case = f.nested.get('case')
         if case is None:
             raise AnalysisError('%s.to_wbem_uri: case() vanished' % cls.name)
